@@ -15,7 +15,7 @@ import (
 var (
 	Keys   = []string{"alpha", "bravo key", "charlie\"q", "deltaé", "echo", "foxtrot", "golf", "hotel"}
 	Ids    = []string{"id-a", "id-b \"q\"", "id-cé", "id-d{}", "id-e", "id-f", "id-g", "id-h", "id-i", "id-j", "id-k", "id-l"}
-	FNames = []string{"Alt", "speed", "temp"}
+	FNames = []string{"a.x", "a.y", "speed", "temp"} // dotted names are literal names while no field "a" holds JSON
 	Hooks  = []string{"hook-a", "hook-b", "hook-c"}
 )
 
